@@ -32,7 +32,8 @@ pub fn record(args: &[String]) {
     let mut s = seed;
     let warmups: Vec<usize> = if thorough { vec![0, 1, 3, 50, 500, 2000] } else { vec![0, 1, 3, 50, 300] };
     for (i, &w) in warmups.iter().enumerate() {
-        let delta = [0.55, 0.65, 0.8, 0.9, 0.95][i % 5];
+        // requested acceptance rates over the whole of (0.5, 0.99), the ends paired with warm-ups that really adapt
+        let delta = [0.57, 0.985, 0.52, 0.97, 0.8, 0.65][i % 6];
         let sd = splitmix(&mut s);
         // standard Gaussian, f64
         let prec = vec![vec![1.0, 0.0], vec![0.0, 1.0]];
